@@ -41,6 +41,9 @@ def module_descs(draw, with_apps=True, max_depth=3, sym_pool=('a', 'b', 'c', 'A'
         return {'name': name, 'axioms': axioms, 'imports': imports}
 
     root = mk(1)
+    # modules can be assembled bottom-up (a module imports its dependencies before it is itself imported, as the shipped
+    # modules do) or top-down (the importer takes the module first, the module gets its own imports afterwards)
+    root['import_order'] = draw(st.sampled_from(['bottom-up', 'bottom-up', 'top-down']))
     # claims: axioms of any module in the tree (proved by loading them), or library lemma applications
     all_axioms = []
 
@@ -85,6 +88,16 @@ def module_descs(draw, with_apps=True, max_depth=3, sym_pool=('a', 'b', 'c', 'A'
                 f = draw(formulas(1))   # tautology proofs are large (seconds to serialise with optimisation): keep these tiny
                 if 'equiv' not in repr(f):
                     claims.append({'kind': 'taut', 'f': tolist(f)})
+    if rich and draw(st.integers(0, 4)) == 0:
+        # two notation-like Instantiate patterns over the same body with the same argument bound to different metavariables
+        body = ['i', ['m', 0, [], [], [], [], []], ['a', ['m', 1, [], [], [], [], []], ['m', 2, [], [], [], [], []]]]
+        val = gens.sugared_to_json(draw_axiom(draw, cfg, 1))
+        k1, k2 = draw(st.lists(st.sampled_from([0, 1, 2]), min_size=2, max_size=2, unique=True))
+        twins = [['inst', body, [[k1, val]]], ['inst', body, [[k2, val]]]]
+        base = len(root['axioms'])
+        root['axioms'] += twins + [twins[0]]
+        all_claims = [{'kind': 'axiom', 'module': root['name'], 'index': base}, {'kind': 'axiom', 'module': root['name'], 'index': base + 1}]
+        claims = all_claims + claims if draw(st.booleans()) else claims + all_claims
     root['claims'] = claims
     root['use_prop'] = any(c['kind'] != 'axiom' for c in claims)
     return root
@@ -107,21 +120,35 @@ def build_module(desc):
     _, _, defs = H.pool()
     built = Built()
 
-    def mk(d):
+    topdown = desc.get('import_order') == 'top-down'
+
+    def create(d):
         if 'ref' in d:
-            return built.by_name[d['ref']]
+            return
         axioms = [gens.sugared_from_json(a, by_label) for a in d['axioms']]
         m = ProofExp(axioms=[gens.build_repo(a) for a in axioms])
         m._verif_axioms = axioms
         m._verif_subs = []
+        built.by_name[d['name']] = m
         for im in d['imports']:
-            sub = mk(im)
+            create(im)
+
+    def link(d):
+        if 'ref' in d:
+            return
+        m = built.by_name[d['name']]
+        for im in d['imports']:
+            sub = built.by_name[im['ref'] if 'ref' in im else im['name']]
+            if not topdown:
+                link(im)              # bottom-up: the dependency is complete before it is imported
             m.import_module(sub)
             m._verif_subs.append(sub)
-        built.by_name[d['name']] = m
-        return m
+            if topdown:
+                link(im)              # top-down: the dependency gets its own imports after it was imported
 
-    root = mk(desc)
+    create(desc)
+    link(desc)
+    root = built.by_name[desc['name']]
     apps = [S.App.from_json(c['app']) for c in desc.get('claims', []) if c['kind'] in ('app', 'univgen')]
     prop = taut = None
     if apps or any(c['kind'] in ('taut', 'quant', 'dyninst') for c in desc.get('claims', [])):
